@@ -96,6 +96,10 @@ func runC12(c *Ctx) {
 					c.check(isS && s == "tcp", rule, "handleRawMessage/key-protocol", w.ipos(gt), "protocol tcp", "the entry is not obtained for protocol tcp")
 					c.check(isResultOf(callArg(gt, 2), hop, 1), rule, "handleRawMessage/key-port", w.ipos(gt), "port = the response hop's port", "the registration port is not the port the response will be sent to (result 1 of the response hop)")
 					c.check(isResultOf(callArg(gt, 4), gct, 0) && isMsg(callArg(gct, -1)), rule, "handleRawMessage/key-transaction", w.ipos(gt), "transaction = GetClientTransaction(request)", "the registration is not keyed by the request's client transaction (CSeq method + top Via branch): transactions of different connections share one entry")
+					// the key is computed from the Via as the response will see it: the received/rport stamp is not applied afterwards
+					for _, sc := range w.callsIn(f, "(*Message).SetReceived") {
+						c.check(!canReach(at(hop), nil, isInstr(sc.In), nil), rule, "handleRawMessage/stamp-before-key", w.ipos(sc.In), "received/rport are stamped before the registration key is computed", "the received/rport stamp is applied after the registration key was computed from the Via: the connection is registered under the sent-by the client wrote, while the response is looked up under received/rport, so it does not find the connection")
+					}
 					hostOK := localDerives(callArg(gt, 1), func(x ssa.Value) bool { return isResultOf(x, hop, 0) })
 					c.check(hostOK, rule, "handleRawMessage/key-host", w.ipos(gt), "host derives from the response hop's host", "the registration host does not derive from the host the response will be sent to")
 				}
@@ -329,5 +333,33 @@ func runC12(c *Ctx) {
 			c.check(cr != nil && isResultOf(mu.Key, key, 0) && isResultOf(mu.Value, cr, 0) && w.requires(f, mu, okSel, false) && w.requires(f, mu, errNil(cr), true), rule, "GetTransport/miss-stores-under-key", w.ipos(mu), "a created entry is stored under the same key", "the entry created on a miss is not stored under the key that was looked up")
 		}
 	}
-	c.floor(rule, 2)
+	// every transaction gets an entry of its own: for tcp the creator returns a fresh fail-over object (no primary yet, the
+	// shared reconnecting client as secondary) that is not the object stored under the destination's base key
+	if f := c.fn(rule, "(*ClientTransportMgr).createClientTransport"); f != nil {
+		isTCP := func(a Atom) bool { return a.Kind == "eqstr" && a.Str == "tcp" && isParam(f, a.X, 1) }
+		isUDP := func(a Atom) bool { return a.Kind == "eqstr" && a.Str == "udp" && isParam(f, a.X, 1) }
+		keep := w.under(assumeAtom(isTCP, true), assumeAtom(isUDP, false))
+		stored := map[ssa.Value]bool{}
+		eachInstr(f, func(in ssa.Instruction) {
+			if mu, ok := in.(*ssa.MapUpdate); ok {
+				stored[strip(mu.Value)] = true
+			}
+		})
+		good := len(w.ifsTesting(f, isTCP)) > 0
+		n := 0
+		for _, r := range returnsUnder(f, keep) {
+			if !allVals(valuesUnder(f, r.Results[1], keep), isNilConst) {
+				continue
+			}
+			for _, v := range valuesUnder(f, r.Results[0], keep) {
+				n++
+				nf := w.resultOfCallTo(v, "NewFailOverClientTransport", 0)
+				if nf == nil || stored[strip(v)] || !isNilConst(nf.Call.Args[0]) {
+					good = false
+				}
+			}
+		}
+		c.check(good && n > 0, rule, "createClientTransport/private-entry-per-transaction", w.pos(f.Pos()), "each tcp table entry is a fresh fail-over object with no primary", "for tcp the creator hands out an object that is shared (stored under the destination's base key) or already has a primary: registering the inbound connection of one transaction overwrites the connection of every other pending transaction to that destination")
+	}
+	c.floor(rule, 3)
 }
